@@ -658,6 +658,7 @@ func buildOps(nch int) []op {
 			w.ReqCancelled[ci] = false
 			w.Pending[ci] = 0
 			w.EverQueued[ci] = 0
+			w.StoreCalls[ci] = 0
 			for r, o := range w.Owner {
 				if o == ci {
 					delete(w.Owner, r)
@@ -681,14 +682,16 @@ func buildOps(nch int) []op {
 				return ""
 			}}
 		}})
-		add(op{fmt.Sprintf("use-store(ch%d)", ci), func(w *World) bool { return !w.Shutdown && !w.Store[ci] }, func(w *World) want {
+		add(op{fmt.Sprintf("use-store(ch%d)", ci), func(w *World) bool { return !w.Shutdown }, func(w *World) want {
 			var err error
+			again := w.Store[ci] // the manager re-applies the transport options on every restart
 			mc.Call(func() { err = w.T.UseStore(w.Chans[ci], ipld.LinkSystem{}) })
 			w.Store[ci] = true
+			w.StoreCalls[ci]++
 			w.Cleaned[ci] = false
 			name := "data-transfer-" + w.Chans[ci].String()
 			return want{handler: []string{}, custom: func(d Delta) string {
-				if err != nil {
+				if err != nil && !again {
 					return "UseStore failed: " + err.Error()
 				}
 				if !w.GS.HasOption(name) {
@@ -728,7 +731,7 @@ func propOf(s string) string {
 
 // focusRestartCycles is the sub-alphabet around requester-cancel / re-request cycles.
 var focusRestartCycles = []string{"open(ch0)", "finish(cur(ch0),client-cancelled)", "finish(cur(ch0),ok)", "close(ch0)", "incoming(ch1,new)", "incoming(ch1,restart)",
-	"requestor-cancelled(cur(ch1))", "resume(ch1)", "pause(ch1)", "close(ch1)", "cleanup(ch1)", "use-store(ch1)", "completed-response(cur(ch1),20)"}
+	"requestor-cancelled(cur(ch1))", "resume(ch1)", "pause(ch1)", "close(ch1)", "cleanup(ch1)", "use-store(ch1)", "use-store(ch0)", "cleanup(ch0)", "completed-response(cur(ch1),20)"}
 
 func c16(x *mc.Cell, nch, depth, maxStates int, focus ...string) {
 	ops := buildOps(nch)
